@@ -171,13 +171,14 @@ def eval_clause(src, env, old, ns):
 
 def spec_namespace():
     ns = {}
-    d = os.path.join(HERE, 'specs')
-    for fn in sorted(os.listdir(d)):
-        if fn.endswith('.py') and fn != '__init__.py':
-            m = importlib.import_module('specs.' + fn[:-3])
-            for k, v in vars(m).items():
-                if not k.startswith('__'):
-                    ns[k] = v
+    for pkg in ('specs', 'models'):
+        d = os.path.join(HERE, pkg)
+        for fn in sorted(os.listdir(d)):
+            if fn.endswith('.py') and fn != '__init__.py':
+                m = importlib.import_module(pkg + '.' + fn[:-3])
+                for k, v in vars(m).items():
+                    if not k.startswith('__'):
+                        ns[k] = v
     return ns
 
 
@@ -227,13 +228,48 @@ def call_target(case, env):
     return fn(*args, **kwargs)
 
 
+def install_stubs(targets, own):
+    """callees that the proof replaced by their contract are replaced natively
+    by stubs that return what the solver model chose (in call order)"""
+    undo = []
+    state = {'entered': False}
+    for t in targets:
+        modname, path = t.split(':')
+        mod = importlib.import_module(modname)
+        parts = path.split('.')
+        owner = mod
+        for p in parts[:-1]:
+            owner = getattr(owner, p)
+        orig = inspect.getattr_static(owner, parts[-1]) if inspect.isclass(owner) else getattr(owner, parts[-1])
+
+        def stub(*a, _t=t, _orig=orig, **k):
+            if _t == own and not state['entered']:
+                state['entered'] = True      # the verified function itself runs for real
+                f = _orig.__func__ if isinstance(_orig, (staticmethod, classmethod)) else _orig
+                return f(*a, **k)
+            r = pyvc_rt.next_call(_t)
+            if r[0] == 'raise':
+                e = r[1].__new__(r[1])
+                if len(r) > 2 and r[2] is not None:
+                    try:
+                        e.errno = r[2]
+                    except Exception:
+                        pass
+                raise e
+            return r[1]
+        setattr(owner, parts[-1], staticmethod(stub) if isinstance(orig, staticmethod) else stub)
+        undo.append(lambda owner=owner, nm=parts[-1], orig=orig: setattr(owner, nm, orig))
+    return undo
+
+
 def run_case(case, ns):
     obs = {'id': case.get('id')}
     try:
         pyvc_rt.load_script(case.get('nondet', []), Builder(ns))
         b = Builder(ns)
         env = {k: b.build(v) for k, v in case['params'].items()}
-        old = copy.deepcopy(env) if case.get('deepcopy_old', True) else dict(env)
+        bo = Builder(ns)
+        old = {k: bo.build(v) for k, v in case['params'].items()}
     except Exception:
         obs['error'] = 'rebuild failed: ' + traceback.format_exc()[-800:]
         return obs
@@ -245,6 +281,7 @@ def run_case(case, ns):
         except Exception as e:
             obs['witness'].append('error: %r' % (e,))
     sys.setrecursionlimit(case.get('recursionlimit', 1000))
+    undo = install_stubs(case.get('stubs', []), case['target'])
     try:
         result = call_target(case, env)
         obs['outcome'] = 'return'
@@ -253,6 +290,8 @@ def run_case(case, ns):
         env2['result'] = result
     except BaseException as e:   # noqa
         obs['outcome'] = 'raise'
+        if isinstance(e, pyvc_rt.ScriptExhausted):
+            obs['script_exhausted'] = True
         obs['exc_class'] = type(e).__module__ + '.' + type(e).__name__
         obs['exc_msg'] = str(e)[:300]
         obs['exc_mro'] = [c.__module__ + '.' + c.__name__ for c in type(e).__mro__]
@@ -268,6 +307,8 @@ def run_case(case, ns):
         obs['exc_matches'] = [nm for nm, c in zip(case.get('allowed_raises', []), allowed) if isinstance(e, c)]
         env2 = dict(env)
         env2['exc'] = e
+    for u in undo:
+        u()
     obs['clauses'] = {}
     which = case.get('clauses_return', []) if obs['outcome'] == 'return' else case.get('clauses_raise', {}).get(
         (obs.get('exc_matches') or [None])[0], [])
